@@ -37,12 +37,14 @@ QUERY_TIMEOUT_MS = {"quick": 30000, "thorough": 60000}
 
 OPS = ["pre:A", "pre:B", "pre:X_missing_prerequisite", "pre:A:details",
        "fit", "fit:range_x", "fit:weight_cp", "fit:gcf_k", "fit:segment-name", "fit:model_key",
-       "fit:params_initial", "fit:params_initial-bound", "fit:params_initial-vary", "fit:method", "fit:preprocessing-B2", "fit:unknown-key", "fit:unknown-model",
+       "fit:params_initial", "fit:params_initial-bound", "fit:params_initial-vary", "fit:method", "fit:preprocessing-B2", "fit:preprocessing_options-only", "fit:unknown-key", "fit:unknown-model",
        "set:weight_cp", "set:range_x", "set:unknown-key", "rate", "emodulus-mindelta"]
 
 
 def bounds(tier):
     return {"history length k": 2 if tier == "quick" else 3, "operations": OPS, "N": hc.N,
+            "extra": "quick: also the 23 length-3 histories pre:A > emodulus-mindelta > op",
+            "scan": "the E(depth) scan is an uninterpreted function of segment data and settings (internals: C05)",
             "outside": "longer histories; relative-cp/plateau fits inside histories (C05/C11); real numerics"}
 
 
@@ -52,6 +54,15 @@ def tasks(tier):
     for hist in itertools.product(range(len(OPS)), repeat=k):
         ts.append({"name": "hist:" + ">".join(OPS[i] for i in hist), "fn": "t_history",
                    "args": {"hist": list(hist)}, "max_paths": 40000})
+    if k == 2:
+        # length-3 histories that start with a stored E(depth) scan (it needs a
+        # preprocessed curve first, so no length-2 history changes anything after it)
+        pre = [OPS.index("pre:A"), OPS.index("emodulus-mindelta")]
+        for i in range(len(OPS)):
+            hist = pre + [i]
+            ts.append({"name": "hist:" + ">".join(OPS[j] for j in hist), "fn": "t_history",
+                       "args": {"hist": hist}, "max_paths": 40000,
+                       "witnesses": ["scan-stored"] if OPS[i] == "rate" else []})
     return ts
 
 
@@ -115,6 +126,11 @@ def do_op(s, idnt, op, v):
         elif op == "fit:preprocessing-B2":
             st, op_ = copy.deepcopy(hc.PIPELINES["B2"])
             idnt.fit_model(preprocessing=st, preprocessing_options=op_,
+                           **{k: x for k, x in _fit_defaults(s, idnt).items() if not k.startswith("preprocessing")})
+        elif op == "fit:preprocessing_options-only":
+            # new options for the current steps, without naming the steps again
+            op_ = copy.deepcopy(hc.PIPELINES["B2"][1])
+            idnt.fit_model(preprocessing_options=op_,
                            **{k: x for k, x in _fit_defaults(s, idnt).items() if not k.startswith("preprocessing")})
         elif op == "fit:unknown-key":
             idnt.fit_model(no_such_setting=1)
@@ -186,6 +202,35 @@ def stored_settings(s, idnt):
     return {k: copy.deepcopy(fp[k]) for k in fitmod.FP_DEFAULT if k in fp}
 
 
+def _install_scan_stub(s):
+    """compute_emodulus_vs_mindelta (the E(depth) scan; its internals are the
+    subject of C05) is replaced by an uninterpreted function of the segment's
+    data and of every fit setting: what matters here is only WHEN its stored
+    result is discarded."""
+    fitmod = s.w.modules["nanite.fit"]
+
+    def scan(self, callback=None):
+        segid = self.segment
+        X = symnp.asarray(self.x_axis[segid])
+        Y = symnp.asarray(self.y_axis[segid])
+        h = Fr(0)
+        for ex, ey, pr in zip(X.elems, Y.elems, X._present_list()):
+            hx = core.sym_uf("cons", [h, ex, ey])
+            h = hx if pr is True else (h if pr is False else core.sym_ite(pr, hx, h))
+        fp = self.fp
+        P = fp["params_initial"]
+        states = [p.__getstate__() for p in P.values()]
+        num = lambda v: int(v) if isinstance(v, bool) else v
+        args = [h] + [st[1] for st in states] + [num(fp["range_x"][0]), num(fp["range_x"][1]),
+                                                  num(fp["weight_cp"]), num(fp["gcf_k"])]
+        tag = "%s_%s_%s_%s_%s" % (fp["model_key"], fp["method"], "".join("v" if st[2] else "f" for st in states),
+                                  str(fp["range_type"]).replace(" ", ""), fp["segment"])
+        E = symnp.SymArr([core.sym_uf(f"scanE{j}_{tag}", args) for j in range(2)])
+        D = symnp.SymArr([core.sym_uf(f"scanD{j}_{tag}", args) for j in range(2)])
+        return E, D
+    fitmod.IndentationFitter.compute_emodulus_vs_mindelta = scan
+
+
 def t_history(hist):
     global LAST_WORLD
     s = hc.Sys()
@@ -196,6 +241,7 @@ def t_history(hist):
         def rate(self, datasets=None, samples=None):
             return [core.fresh_real("rating")]
     indmod.get_rater = lambda **kw: _Rater()
+    _install_scan_stub(s)
     vals = [Vals(j) for j in range(len(hist))]
     check_assumptions()
     idnt = s.curve()
@@ -208,10 +254,35 @@ def t_history(hist):
     can_fit = "model_key" in settings and settings.get("params_initial") is not None \
         and ("compute_tip_position" in (idnt.preprocessing or []))
     fresh = s.curve()
-    if idnt.preprocessing or "preprocessing" in fp:
+    if "preprocessing" in fp:
+        # the stored settings are what the curve reports as applied
+        prove("stored-pipeline-is-the-remembered-one",
+              list(fp["preprocessing"]) == list(idnt.preprocessing or [])
+              and fp.get("preprocessing_options") == idnt.preprocessing_options,
+              info={"stored": repr((fp["preprocessing"], fp.get("preprocessing_options")))[:200],
+                    "remembered": repr((idnt.preprocessing, idnt.preprocessing_options))[:200]})
+        fresh.apply_preprocessing(copy.deepcopy(fp["preprocessing"]),
+                                  options=copy.deepcopy(fp.get("preprocessing_options")))
+    elif idnt.preprocessing:
         fresh.apply_preprocessing(copy.deepcopy(idnt.preprocessing),
                                   options=copy.deepcopy(idnt.preprocessing_options))
     prove("data-columns-equal-fresh-curve", hc.columns_equal(hc.columns(idnt), hc.columns(fresh)))
+    if "optimal_fit_E_array" in fp:
+        # a stored E(depth) scan is the scan of the stored settings
+        witness("scan-stored")
+        fresh2 = s.curve()
+        if "preprocessing" in fp:
+            fresh2.apply_preprocessing(copy.deepcopy(fp["preprocessing"]),
+                                       options=copy.deepcopy(fp.get("preprocessing_options")))
+        for k in sorted(settings):
+            if k not in ("preprocessing", "preprocessing_options"):
+                fresh2.fit_properties[k] = copy.deepcopy(settings[k])
+        e2, d2 = fresh2.compute_emodulus_mindelta()
+        e1, d1 = fp["optimal_fit_E_array"], fp["optimal_fit_delta_array"]
+        prove("stored-scan-equals-scan-of-stored-settings",
+              len(e1.elems) == len(e2.elems) and all_of([same(u, v) for u, v in zip(e1.elems, e2.elems)]
+                                                        + [same(u, v) for u, v in zip(d1.elems, d2.elems)]),
+              info={"history": [OPS[i] for i in hist]})
     has_results = "hash" in fp
     if not has_results:
         prove("no-result-keys-without-hash", not any(k in fp for k in ("params_fitted", "chi_sqr", "xmin", "xmax")),
@@ -303,6 +374,8 @@ def do(idnt, op, v):
         elif op == "fit:method": idnt.fit_model(method="nelder", **defaults(idnt))
         elif op == "fit:preprocessing-B2":
             st, o = copy.deepcopy(PIPELINES["B2"]); idnt.fit_model(preprocessing=st, preprocessing_options=o, **{{k: x for k, x in defaults(idnt).items() if not k.startswith("preprocessing")}})
+        elif op == "fit:preprocessing_options-only":
+            o = copy.deepcopy(PIPELINES["B2"][1]); idnt.fit_model(preprocessing_options=o, **{{k: x for k, x in defaults(idnt).items() if not k.startswith("preprocessing")}})
         elif op == "fit:unknown-key": idnt.fit_model(no_such_setting=1)
         elif op == "fit:unknown-model": idnt.fit_model(model_key="no_such_model")
         elif op == "set:weight_cp": idnt.fit_properties["weight_cp"] = v["w"]
@@ -339,9 +412,23 @@ print([None if o is None else type(o).__name__ for o in outs])
 fp = a.fit_properties
 settings = {{k: copy.deepcopy(fp[k]) for k in nfit.FP_DEFAULT if k in fp}}
 b = curve()
-if a.preprocessing or "preprocessing" in fp:
-    b.apply_preprocessing(copy.deepcopy(a.preprocessing), options=copy.deepcopy(a.preprocessing_options))
 bad = []
+if "preprocessing" in fp:
+    if list(fp["preprocessing"]) != list(a.preprocessing or []) or fp.get("preprocessing_options") != a.preprocessing_options:
+        bad.append("stored pipeline %r differs from the remembered one %r" % ((fp["preprocessing"], fp.get("preprocessing_options")), (a.preprocessing, a.preprocessing_options)))
+    b.apply_preprocessing(copy.deepcopy(fp["preprocessing"]), options=copy.deepcopy(fp.get("preprocessing_options")))
+elif a.preprocessing:
+    b.apply_preprocessing(copy.deepcopy(a.preprocessing), options=copy.deepcopy(a.preprocessing_options))
+if "optimal_fit_E_array" in fp:
+    b2 = curve()
+    if "preprocessing" in fp:
+        b2.apply_preprocessing(copy.deepcopy(fp["preprocessing"]), options=copy.deepcopy(fp.get("preprocessing_options")))
+    for k in sorted(settings):
+        if k not in ("preprocessing", "preprocessing_options"): b2.fit_properties[k] = copy.deepcopy(settings[k])
+    e2, d2 = b2.compute_emodulus_mindelta()
+    e1, d1 = fp["optimal_fit_E_array"], fp["optimal_fit_delta_array"]
+    if len(e1) != len(e2) or not np.allclose(e1, e2, rtol=1e-6, atol=0, equal_nan=True) or not np.allclose(d1, d2, rtol=1e-9, atol=0, equal_nan=True):
+        bad.append("stored E(depth) scan is not the scan of the stored settings")
 FIT = ("fit", "fit residuals", "fit range")
 for c in [c for c in b.columns if c not in FIT]:
     if not np.array_equal(a[c], b[c], equal_nan=True): bad.append("data column " + c)
